@@ -32,22 +32,26 @@ P_Retrievable == \A i \in 1..Len(objs) :
                     /\ Count(R.pts[PtOf(i)].c4, i) = 1
                     /\ (\A i2 \in i+1..Len(objs) : R.pts[PtOf(i2)].v3 # R.pts[PtOf(i)].v3)
                           => R.pts[PtOf(i)].c3 = i
-P_Neighbourhood == \A j \in Pts : Near(R.pts[j].p) \subseteq ToSet(R.pts[j].n4)
-P_Neighbourhood3 == \A j \in Pts : \A i \in Near(R.pts[j].p) :
+\* Embeddings whose unit is not a power of two round every coordinate: there a distance of EXACTLY one voxel size is decided by
+\* rounding, so only objects strictly closer are demanded, and the exact design (D_*) is not compared.
+Exact == R.exact
+NearX(p) == IF Exact THEN Near(p) ELSE {i \in 1..Len(objs) : Linf(objs[i], p) < s}
+P_Neighbourhood == \A j \in Pts : NearX(R.pts[j].p) \subseteq ToSet(R.pts[j].n4)
+P_Neighbourhood3 == \A j \in Pts : \A i \in NearX(R.pts[j].p) :
                        (R.pts[PtOf(i)].c3 = i) => i \in ToSet(R.pts[j].n3)
 P_ContentOnce == /\ R.g4 = [i \in 1..Len(objs) |-> i]
                  /\ \A i \in 1..Len(objs) : Count(R.g3, i) <= 1
                  /\ \A i \in 1..Len(objs) : (R.pts[PtOf(i)].c3 = i) <=> Count(R.g3, i) = 1
-\* a neighbourhood only ever returns stored objects, each once
 \* a grid re-used through update_dimensions (as the contact models re-use theirs at every iteration) answers like a fresh one
 P_Reuse == R.reuse_same
+\* a neighbourhood only ever returns stored objects, each once
 P_NbhdSound == \A j \in Pts : \A i \in ToSet(R.pts[j].n4) : i \in 1..Len(objs) /\ Count(R.pts[j].n4, i) = 1
 
 \* ---- the design: exact agreement with Grid
-D_Nb  == R.nb = <<Nb(1), Nb(2), Nb(3)>> /\ R.nb3 = R.nb
-D_Idx == \A j \in Pts : R.pts[j].v = Vox(R.pts[j].p) /\ R.pts[j].v3 = R.pts[j].v
-D_Content == \A j \in Pts : /\ R.pts[j].c4 = Content4(Vox(R.pts[j].p), Len(objs))
+D_Nb  == Exact => R.nb = <<Nb(1), Nb(2), Nb(3)>> /\ R.nb3 = R.nb
+D_Idx == Exact => \A j \in Pts : R.pts[j].v = Vox(R.pts[j].p) /\ R.pts[j].v3 = R.pts[j].v
+D_Content == Exact => \A j \in Pts : /\ R.pts[j].c4 = Content4(Vox(R.pts[j].p), Len(objs))
                             /\ R.pts[j].c3 = Content3(Vox(R.pts[j].p))
-D_Nbhd == \A j \in Pts : /\ ToSet(R.pts[j].n4) = Nbhd4(R.pts[j].p)
+D_Nbhd == Exact => \A j \in Pts : /\ ToSet(R.pts[j].n4) = Nbhd4(R.pts[j].p)
                          /\ ToSet(R.pts[j].n3) = Nbhd3(R.pts[j].p)
 =============================================================================
